@@ -25,7 +25,8 @@ ASSUMPTIONS = [
 ]
 EXPLANATION = ("theorems: TST order (irreflexive, antisymmetric, total, agrees with real time below 2^31) for all pairs; stored PV is "
                "the newest of any history in a 2^31 window; expiry in real time incl. senders ahead of the clock; neighbour flag "
-               "set by beacon/SHB and kept until expiry whatever multi-hop packets follow, never set by multi-hop packets; "
+               "set by beacon/SHB and kept until expiry whatever multi-hop packets follow, never set by multi-hop packets, an expired "
+               "entry is not re-used by the next packet of its station; "
                "own address never entered for any frame. Correspondence of full histories (state after every event)")
 
 M32 = 2 ** 32
@@ -50,6 +51,17 @@ def check_order(ctx, n_random):
         pairs.append(((t + d) % M32, t))
     impl = [(TST(msec=a) > TST(msec=b), TST(msec=a) - TST(msec=b)) for a, b in pairs]
     ctx.count(len(pairs), "tst_pairs")
+    # the derived operators (<, <=, >=, ==, !=) are the same order: each is determined by > and equality
+    for a, b in pairs:
+        x, y = TST(msec=a), TST(msec=b)
+        gt, lt, ge, le, eq, ne = x > y, x < y, x >= y, x <= y, x == y, x != y
+        want = (gt, y > x, gt or a == b, not gt, a == b, a != b)
+        if (gt, lt, ge, le, eq, ne) != want:
+            ctx.property_failure("tst_order", {"op": "tst_operators", "a": a, "b": b}, "the operators <, <=, >=, ==, != of TST "
+                                 "do not describe the same order as > (a < b iff b > a, a >= b iff a > b or a = b, "
+                                 "a <= b iff not a > b)", dict(zip(("gt", "lt", "ge", "le", "eq", "ne"), want)),
+                                 dict(zip(("gt", "lt", "ge", "le", "eq", "ne"), (gt, lt, ge, le, eq, ne))))
+    ctx.count(len(pairs), "tst_pairs_all_operators")
     for (a, b), (gt, sub) in zip(pairs, impl):
         inp = {"op": "tst_order", "a": a, "b": b}
         d = (a - b) % M32
@@ -119,6 +131,11 @@ def oracle_history(ctx, station, events, impl):
         if valid and fresh:
             was = prev.get(src)
             T_old = rel(now, was["pv"][3]) if (was and was["set"]) else None
+            # an entry whose lifetime had run out before this packet arrived has expired, whether or not a purge has
+            # removed it yet: S is then known through this packet only
+            was_expired = T_old is not None and (now - T_old) > life
+            if was_expired:
+                ctx.count(1, "packet_of_source_whose_entry_had_expired")
             T_exp = T_pkt if (T_old is None or T_pkt > T_old) else T_old
             should_be_present = (now - T_exp) <= life
             e = table.get(src)
@@ -133,16 +150,28 @@ def oracle_history(ctx, station, events, impl):
                     ctx.property_failure("pv_not_newest", inp, "stored position vector is not the most recent by timestamp",
                                          {"T": T_exp}, {"T": T_got, "pv": e["pv"]})
                 elif T_exp == T_pkt and (T_old is None or T_pkt > T_old):
-                    want = list(src) + [ev["tst"], ev["pos"][0], ev["pos"][1], ev["pai"], 0, 0]
+                    want = list(src) + [ev["tst"], ev["pos"][0], ev["pos"][1], ev["pai"], ev.get("s", 0), ev.get("h", 0)]
                     if e["pv"] != want:
                         ctx.property_failure("pv_not_newest", inp, "stored position vector differs from the newest received one", want, e["pv"])
+                elif T_old is not None and T_pkt <= T_old:
+                    # an older or EQUAL timestamp never replaces: every field of the stored vector stays
+                    ctx.count(1, "pv_older_or_equal" + ("_equal_tst" if T_pkt == T_old else ""))
+                    if e["pv"] != was["pv"]:
+                        ctx.property_failure("pv_replaced_by_not_newer", inp, "a position vector with an older or equal timestamp "
+                                             "replaced (part of) the stored one", was["pv"], e["pv"])
                 if is_shb and not e["nb"]:
                     ctx.property_failure("neighbour_flag", inp, "S is not a neighbour after its beacon / SHB was processed", 1, e["nb"])
                 if not is_shb:
-                    want_nb = was["nb"] if was else 0
+                    want_nb = was["nb"] if (was and not was_expired) else 0
                     if e["nb"] != want_nb:
-                        ctx.property_failure("neighbour_flag", inp, "a multi-hop packet changed the neighbour flag of S "
-                                             "(or made an unknown S a neighbour)", want_nb, e["nb"])
+                        if was_expired and was["nb"] and e["nb"]:
+                            ctx.property_failure("neighbour_flag_survives_expiry", dict(inp, stored_pv_age_ms=now - T_old, lifetime_ms=life),
+                                                 "the entry of S had expired (position timestamp older than the lifetime, no purge "
+                                                 "has run since) when a multi-hop packet of S arrived: S is known through "
+                                                 "multi-hop packets only, yet it counts as a neighbour again", 0, e["nb"])
+                        else:
+                            ctx.property_failure("neighbour_flag", inp, "a multi-hop packet changed the neighbour flag of S "
+                                                 "(or made an unknown S a neighbour)", want_nb, e["nb"])
             ctx.nontriv(("loct", ev["kind"], src, ev.get("sn"), ev["tst"], now))
         if valid and not is_shb:
             used_sn.setdefault(src, set()).add(ev["sn"])
@@ -155,6 +184,11 @@ def oracle_history(ctx, station, events, impl):
                     T = rel(now, e["pv"][3])
                     if now - T > life:
                         ctx.property_failure("expired_kept", inp, "entry older than the lifetime survived a refresh", None, e)
+        # nothing but expiry removes an entry: whoever was present with a position vector still within its lifetime stays
+        for a, pe in prev.items():
+            if pe["set"] and a not in table and (now - rel(now, pe["pv"][3])) <= life:
+                ctx.property_failure("entry_lost_early", dict(inp, lost=pe, age_ms=now - rel(now, pe["pv"][3]), lifetime_ms=life),
+                                     "an entry disappeared although its position timestamp is still within the lifetime", pe, None)
         # other sources untouched except by expiry
         for a, e in table.items():
             if a != src and a in prev and (prev[a]["pv"], prev[a]["nb"]) != (e["pv"], e["nb"]):
@@ -172,40 +206,138 @@ def histories(ctx, n_hist, n_events):
         else:
             rs.VCLOCK.set_ms(1_700_000_000_000 + ctx.rng.randrange(0, 10 ** 9))
         st = rs.Station(area_alg=ctx.rng.choice(["CBF", "SIMPLE"]), dpl_len=ctx.rng.choice([1, 2, 8]), ego=ego,
-                        life_s=ctx.rng.choice([20, 20, 5, 1]))
+                        life_s=ctx.rng.choice([20, 20, 5, 1]), ls_max=ctx.rng.choice([10, 10, 0, 1, 2]))
         mix = {"beacon": 5, "shb": 4, "tsb": 4, "gbc": 4, "gac": 2, "guc": 3, "lsreq": 2, "lsrep": 2, "dup": 4, "tick": 8,
-               "req_guc": 1, "ls": 1, "cbf": 1, "req_shb": 0, "req_geo": 0, "ego": 0}
-        sc = rs.Scenario(ctx.rng, st, n_sources=ctx.rng.choice([2, 3, 4]), mix=mix)
-        # occasionally a packet that claims our own address
+               "req_guc": 1, "ls": 1 if st.params["ls_max"] == 10 else 3, "cbf": 1, "req_shb": 0, "req_geo": 0, "ego": 0}
+        # rich: speed / heading / mobility flag / offload bit / lifetime code / station type / M bit of the sources vary
+        sc = rs.Scenario(ctx.rng, st, n_sources=ctx.rng.choice([2, 3, 4]), mix=mix, rich=True)
         evs = sc.build(n_events)
         for k in range(len(evs)):
-            if evs[k]["ev"] == "rx" and ctx.rng.random() < 0.03:
+            if evs[k]["ev"] != "rx":
+                continue
+            u = ctx.rng.random()
+            if u < 0.03:
+                # a packet that claims our own address: every packet type; a share of them with our MID under another
+                # station type / M bit (the link-layer address is what identifies the station: GNAddress.__eq__)
                 me = rs.Source(ctx.rng, 99, ego)
-                me.addr = (0, st.st, st.mid)
+                me.addr = (0, st.st, st.mid) if ctx.rng.random() < 0.6 else (ctx.rng.choice([0, 1]), ctx.rng.randrange(13), st.mid)
                 st.positions.update(me.pos)
                 sc.now = evs[k]["now"]
-                evs[k] = sc.rx_event(ctx.rng.choice(["beacon", "shb", "tsb", "gbc", "guc", "lsreq"]), src=me)
+                evs[k] = sc.rx_event(ctx.rng.choice(["beacon", "shb", "tsb", "gbc", "gac", "guc", "lsreq", "lsrep"]), src=me)
+                evs[k]["own"] = True
+            elif u < 0.10:
+                # the same timestamp as the previous packet of this source (or one just below / above it) with another
+                # position, speed and heading: an equal timestamp must not replace anything
+                srcs = {x.addr: x for x in sc.sources}
+                prevs = [e for e in evs[:k] if e["ev"] == "rx" and tuple(e["src"]) == tuple(evs[k]["src"]) and not e.get("raw")]
+                so = srcs.get(tuple(evs[k]["src"]))
+                if prevs and so is not None and evs[k]["kind"] not in ("guc", "lsrep", "lsreq"):
+                    sc.now = evs[k]["now"]
+                    t_eq = (prevs[-1]["tst"] + ctx.rng.choice([0, 0, 0, -1, 1])) % M32
+                    others = [q for q in so.pos if q != prevs[-1]["pos"]] or so.pos
+                    evs[k] = sc.rx_event(evs[k]["kind"], src=so, tst=t_eq, pos=ctx.rng.choice(others), rhl=2, mhl=3)
+                    evs[k]["same_tst"] = True
         impl, mtrace, skipped = rs.run_history(ctx, st, evs)
         oracle_history(ctx, st, evs, impl)
         for ev in evs:
-            ctx.count(1, "ev_" + (ev.get("kind") or ev["ev"]))
+            ctx.count(1, "ev_" + (ev.get("kind") or ev["ev"]) + ("_own_address" if ev.get("own") else "")
+                      + ("_same_tst_as_previous" if ev.get("same_tst") else ""))
         if it == 0:
             e0 = next(e for e in evs if e["ev"] == "rx")
             ctx.sample({"event": rs._ev_repr({k: v for k, v in e0.items() if k != "dests"})})
 
 
+KINDS = ["beacon", "shb", "tsb", "gbc", "gac", "guc", "lsreq", "lsrep"]
+
+
+def expiry_boundaries(ctx, lives, per_life):
+    """S is entered by one packet of any type whose position timestamp lies before / at / after the receiver's clock;
+    packets of another station then arrive exactly at age lifetime - 1, lifetime and lifetime + 1 ms of S's position
+    vector: S must be present after the first two and gone after the third (oracle: entry_lost_early / expired_kept)"""
+    for life_s in lives:
+        life = life_s * 1000
+        for it in range(per_life):
+            ego = ctx.rng.choice([(413800000, 21100000), (-338688000, 1512093000)])
+            if it % 3 == 1:       # across the 2^32 ms wrap: S's timestamp before, the probes after it (or both sides)
+                base = ctx.rng.randrange(100, 200) * M32 - ctx.rng.choice([1, life // 2, life, life + 1, 3])
+                rs.VCLOCK.set_ms(base + rs.stack.ITS_EPOCH_MS - rs.stack.LEAP_MS)
+            else:
+                rs.VCLOCK.set_ms(1_700_000_000_000 + ctx.rng.randrange(0, 10 ** 9))
+            st = rs.Station(area_alg=ctx.rng.choice(["CBF", "SIMPLE"]), dpl_len=8, ego=ego, life_s=life_s)
+            sc = rs.Scenario(ctx.rng, st, n_sources=3, rich=True)
+            S, R = sc.sources[0], sc.sources[1]
+            skew = ctx.rng.choice([0, 0, 1, -1, 250, -250, 700, min(3000, life - 2), -min(3000, life - 2), 999])
+            kind = KINDS[it % len(KINDS)]
+            T = sc.now + skew                      # real time of S's position vector
+            evs = [sc.rx_event(kind, src=S, tst=T % M32, rhl=2, mhl=2, sought=R.addr,
+                               de=(R.addr, (sc.now - 50) % M32, R.pos[0][0], R.pos[0][1]))]
+            evs[0]["boundary"] = "enter"
+            for d in (-1, 0, 1):
+                ms = (T + life + d) - sc.now
+                if ms > 0:
+                    evs.append({"ev": "tick", "ms": ms})
+                    sc.now += ms
+                pk = sc.rx_event(ctx.rng.choice(KINDS), src=R, tst=sc.now % M32, rhl=2, mhl=2, sought=S.addr)
+                pk["boundary"] = "age_lifetime%+d" % d
+                evs.append(pk)
+            impl, mtrace, skipped = rs.run_history(ctx, st, evs)
+            oracle_history(ctx, st, evs, impl)
+            for e in evs:
+                if str(e.get("boundary", "")).startswith("age_"):
+                    ctx.count(1, "expiry_probe_" + e["boundary"] + "_entered_by_" + kind)
+            ctx.nontriv(("expiry", life_s, kind, skew, it))
+
+
+def stale_entry_reuse(ctx, n):
+    """S is heard once (beacon / SHB: a neighbour; or a multi-hop packet), then nothing at all is received for more
+    than the lifetime - so no purge runs and the expired entry is still stored - and then a packet of S arrives: S is
+    known through that packet only (after a multi-hop packet: no neighbour), its old duplicate packet list is gone (a
+    replay of an old sequence number is accepted again), and the entry is the one the packet describes"""
+    for it in range(n):
+        life_s = ctx.rng.choice([1, 5, 20])
+        rs.VCLOCK.set_ms(1_700_000_000_000 + ctx.rng.randrange(0, 10 ** 9))
+        st = rs.Station(area_alg=ctx.rng.choice(["CBF", "SIMPLE"]), dpl_len=ctx.rng.choice([1, 8]), life_s=life_s)
+        sc = rs.Scenario(ctx.rng, st, n_sources=2, rich=True)
+        S = sc.sources[0]
+        first = KINDS[it % len(KINDS)]
+        evs = [sc.rx_event(first, src=S, tst=sc.now % M32, rhl=2, mhl=2)]
+        if ctx.rng.random() < 0.5:
+            evs.append(sc.rx_event(ctx.rng.choice(KINDS[2:]), src=S, tst=(sc.now + 1) % M32, rhl=2, mhl=2))
+        ms = life_s * 1000 * ctx.rng.choice([1, 2, 3]) + ctx.rng.choice([2, 50, 999])
+        evs.append({"ev": "tick", "ms": ms})
+        sc.now += ms
+        late = sc.rx_event(ctx.rng.choice(KINDS), src=S, tst=sc.now % M32, rhl=2, mhl=2)
+        evs.append(late)
+        old = [e for e in evs[:2] if e["ev"] == "rx" and "sn" in e]
+        if old and ctx.rng.random() < 0.5:     # replay of a packet of the first life of the entry
+            rp = dict(old[-1])
+            rp["now"], rp["dup_of"] = sc.now, True
+            evs.append(rp)
+        impl, mtrace, skipped = rs.run_history(ctx, st, evs)
+        oracle_history(ctx, st, evs, impl)
+        ctx.count(1, "stale_entry_then_" + late["kind"] + "_first_heard_by_" + first)
+        ctx.nontriv(("stale", it, first, late["kind"], ms))
+
+
 def run(ctx):
-    ctx.rule = ("timestamp pairs on a boundary grid (2^k +- 2, wrap) plus seeded pairs; seeded single-station histories "
-                "(beacon/SHB/TSB/GBC/GAC/GUC/LS from 2-4 sources, duplicates, own-address packets, clock ticks 1 ms .. 45 s, "
-                "lifetimes 1-20 s, a quarter of them across the 2^32 ms wrap); after every event the table of the real "
-                "Router is checked against the property clauses and compared with the model; non-trivial = a valid fresh "
-                "packet was processed; distinct by (kind, source, sn, tst, now)")
+    ctx.rule = ("timestamp pairs on a boundary grid (2^k +- 2, wrap) plus seeded pairs, every comparison operator; seeded "
+                "single-station histories (beacon/SHB/TSB/GBC/GAC/GUC/LS from 2-4 sources with speed, heading, flags, station type "
+                "and M bit varied, duplicates, packets re-using the previous timestamp with another position, own-address packets of "
+                "every type incl. the own MID under another station type, clock ticks 1 ms .. 45 s, lifetimes 1-20 s, LS "
+                "retransmission limits 0-10, a quarter of them across the 2^32 ms wrap); expiry boundaries (entry made by each packet "
+                "type, probes at age lifetime - 1 / lifetime / lifetime + 1 ms); silence longer than the lifetime followed by a packet "
+                "of the same station; after every event the table of the real Router is checked against the property clauses and "
+                "compared with the model; non-trivial = a valid fresh packet was processed; distinct by (kind, source, sn, tst, now)")
     rs.stack.patch_time()
     check_order(ctx, 2000 if ctx.tier == "quick" else 50000)
     if ctx.tier == "quick":
         histories(ctx, 100, 80)
+        expiry_boundaries(ctx, (1, 5, 20), 16)
+        stale_entry_reuse(ctx, 32)
     else:
         histories(ctx, 500, 150)
+        expiry_boundaries(ctx, (1, 2, 5, 20, 60), 120)
+        stale_entry_reuse(ctx, 400)
     ctx.exhaustive = False
 
 
